@@ -482,3 +482,55 @@ pub fn run_clone_refusal(case: u64, out: &mut RunOut) {
     drop(d); drop(c);
     ledger_reset();
 }
+
+// ------------------------------------------------------------------------------ C14: clone_from onto targets of every table size
+
+/// Sources whose reported capacity has been worn down by tombstones to every value between two table sizes, cloned with
+/// `clone()` and `clone_from()` onto targets of the neighbouring table sizes: the result must have at least the source's
+/// capacity and equal it in contents, order, sizes and limit; the source stays as it was.
+pub fn run_clonefrom(seed: u64, budget: u64, out: &mut RunOut) {
+    let mut rng = Rng::new(seed ^ 0xc10e);
+    ledger_reset(); ledger_strict(false);
+    while out.stats.events < budget {
+        let hk = TH_KINDS[rng.usize_below(TH_KINDS.len())];
+        let start = [14usize, 28, 56, 112][rng.usize_below(4)];
+        let cfg = HistCfg { hk, cap0: Some(start), max: usize::MAX >> 1, universe: 4 * start as u32, events: 0, extreme: false };
+        let mut src: Cache<TH> = TH::make(cfg.max, cfg.cap0, hk);
+        let mut next = 0u32;
+        for _ in 0..start { let _ = src.insert(TKey::new(next, 0), TVal::new((next % 7) as usize)); next += 1; }
+        let buckets0 = src.verif_table().0;
+        // wear: remove from the middle of occupied runs and add fresh keys while the table keeps its size
+        for _ in 0..rng.range(0, 3 * start) {
+            if src.len() > 2 && rng.chance(3, 5) { let id = next.wrapping_sub(1 + rng.below(src.len() as u64) as u32); src.remove(&KeyId(id)); }
+            else if src.len() < src.capacity() { let _ = src.insert(TKey::new(next, 0), TVal::new(0)); next += 1; }
+            if src.verif_table().0 != buckets0 { break; }
+        }
+        let before = observe(&src, &ObsOpts { universe: 0, owned_form: false, traversals: false, limit: src.len() + 8 });
+        for tcap in [0usize, 3, 7, 14, 28, 56, 112, 224] {
+            out.stats.events += 1;
+            let mut dst: Cache<TH> = TH::make(1000, Some(tcap), hk);
+            for i in 0..rng.usize_below(4) { let _ = dst.insert(TKey::new(900_000 + i as u32, 0), TVal::new(0)); }
+            let tb = dst.verif_table().0;
+            dst.clone_from(&src);
+            let window = src.capacity() > tb / 8 * 7 && src.capacity() <= tb;
+            if window { out.stats.count("c14_clone_from_source_capacity_between_target_capacity_and_buckets"); }
+            out.stats.eval("C14", mix(&[1415, tcap as u64, window as u64, (src.capacity() > src.len()) as u64, hk as u64]));
+            let od = observe(&dst, &ObsOpts { universe: next.min(300) + 1, owned_form: false, traversals: true, limit: dst.len() + 8 });
+            let what = format!("clone_from a source with {} entries, capacity {} ({} buckets) onto a target built with_capacity({}) ({} buckets)", src.len(), src.capacity(), buckets0, tcap, tb);
+            if dst.capacity() < src.capacity() { fail(out, "C14", "clone-capacity", format!("{}: the target's capacity is {}", what, dst.capacity()), &cfg, "clonefrom".into()); }
+            if od.ids() != before.ids() || od.cur != before.cur || od.max != before.max || od.ents.iter().zip(before.ents.iter()).any(|(a, b)| a.rec != b.rec || a.kuid == b.kuid) || !od.g1.is_empty() || !od.g2.is_empty() || !od.g3.is_empty() {
+                fail(out, "C14", "clone-equal", format!("{}: the target holds {:?} (current_size {}, limit {}), the source {:?} ({}, {}); notes {:?} {:?}", what, od.ids(), od.cur, od.max, before.ids(), before.cur, before.max, od.g1, od.g3), &cfg, "clonefrom".into());
+            }
+            let after = observe(&src, &ObsOpts { universe: 0, owned_form: false, traversals: false, limit: src.len() + 8 });
+            if after.fingerprint != before.fingerprint { fail(out, "C14", "source-changed", format!("{}: the source changed", what), &cfg, "clonefrom".into()); }
+            // the clone is a cache of its own: it takes entries up to its capacity without disturbing the source
+            let room = dst.capacity() - dst.len();
+            for i in 0..room.min(6) { let _ = dst.insert(TKey::new(800_000 + i as u32, 0), TVal::new(1)); }
+            let o3 = observe(&dst, &ObsOpts { universe: 0, owned_form: false, traversals: true, limit: dst.len() + 8 });
+            for m in o3.g1.iter().chain(o3.g2.iter()) { fail(out, "C14", "clone-structure", format!("{}, then {} insertions into the target: {}", what, room.min(6), m), &cfg, "clonefrom".into()); }
+            drop(dst);
+        }
+        drop(src);
+        ledger_reset();
+    }
+}
